@@ -28,6 +28,10 @@ def run(ctx):
                 if hb:
                     job["tsan_log"] = "/tmp/vfC02-%s-%d-%d-%d" % (variant, sd, j, rep)
                 jobs.append(job)
+    # read holds up to the implementation's limit (2^28-1 on glibc's native lock, 32767 in the general model), uninstrumented builds
+    for variant, model in (("plain", "posix"), ("plain-simgen", "general")):
+        exe = build.driver(variant, "c02_rwlock", ["c02_rwlock.c"], wraps=W, defines=['VH_MODEL="%s"' % model])
+        jobs.append(dict(cmd=[exe, "--mode", "holds", "--n", str((1 << 28) + 64)], variant=variant, tag="holds %s" % variant, san_ctx="rwlock-" + model, model=model))
     res = core.run_jobs(ctx, jobs, timeout=900 if q else 3600, workers=6)
     per = {}
     ntsan = 0
@@ -37,7 +41,7 @@ def run(ctx):
                 p = per.setdefault(o["model"] + ":" + o["mode"], {})
                 for k, v in o.items():
                     if isinstance(v, int) and k != "viol":
-                        p[k] = max(p.get(k, 0), v) if k in ("max_readers", "stress_max_readers", "distinct_states") else p.get(k, 0) + v
+                        p[k] = max(p.get(k, 0), v) if k in ("max_readers", "stress_max_readers", "distinct_states", "trylock_read_holds_granted", "trylock_read_holds_refused_at", "max_simultaneous_read_holds") else p.get(k, 0) + v
             elif o.get("ev") == "sample":
                 ctx.sample(o)
         if job.get("tsan_log"):
